@@ -277,7 +277,7 @@ class VSocket:
         if self.connect_error_pending is not None:
             e = self.connect_error_pending
             self.connect_error_pending = None
-            raise ConnectionRefusedError(e, _os.strerror(e))
+            raise OSError(e, _os.strerror(e))      # maps to ConnectionRefusedError etc. by errno; EHOSTUNREACH stays a plain OSError
         if self.conn is None:
             if getattr(self, 'never_completes', False):
                 if not self.blocking:
